@@ -212,6 +212,16 @@ def run(rep, tier):
     def R(f, e, extra=None):
         return render(e, synq.param_roles(f, extra))
 
+    def RL(f, e, depth=3):
+        """like R, but a plain local is first replaced by its (single) `let` initialiser"""
+        while depth and e is not None and e.get("k") == "path":
+            inits = [i for n_, i, st in synq.bindings(f.body) if n_ == e["path"] and i is not None and st["pat"].get("k") == "p_ident"]
+            if len(inits) != 1 or e["path"] in [p_ for p_ in f.params if p_]:
+                break
+            e = inits[0]
+            depth -= 1
+        return R(f, e)
+
     def arm_roles(arm):
         """names bound positionally by a `TypeDefKind::X(a, b)` arm pattern -> $b0, $b1"""
         ren = {}
@@ -245,10 +255,10 @@ def run(rep, tier):
             for f in with_helpers(fns[nm]):
                 for n, node in synq.constructed(f.body, ("LengthStore", "LengthLoad")):
                     off = [x for x in node.get("fields", []) if x["name"] == "offset"]
-                    lens.append((f.name, n, R(f, off[0]["e"]) if off else None, node))
+                    lens.append((f.name, n, RL(f, off[0]["e"]) if off else None, node))
                 for n, node in synq.constructed(f.body, ("PointerStore", "PointerLoad")):
                     off = [x for x in node.get("fields", []) if x["name"] == "offset"]
-                    ptrs.append((f.name, n, R(f, off[0]["e"]) if off else None, node))
+                    ptrs.append((f.name, n, RL(f, off[0]["e"]) if off else None, node))
             # structural minimum: each of the three walkers touches the length slot and the pointer slot somewhere
             rep.floor("R1.5", f"list length-slot sites reachable from {nm}", len(lens) - nl, 1)
             rep.floor("R1.5", f"list pointer-slot sites reachable from {nm}", len(ptrs) - np_, 1)
